@@ -32,11 +32,18 @@ def write_replay(prop, kind, payload):
     return os.path.relpath(path, C.VERIF)
 
 
-def lean_stage(prop, tier):
-    """Build the property's theorem module + driver, audit axioms. Returns dict."""
-    res = {"build_ok": False, "obligations": 0, "discharged": 0, "broken": [], "log": ""}
+def lean_stage(prop, tier, translated=False):
+    """Regenerate translated definitions (if any), build the property's theorem module + driver, audit axioms."""
+    res = {"build_ok": False, "obligations": 0, "discharged": 0, "broken": [], "log": "", "translator": "not used"}
     targets = [f"VerdeModel.Props.{prop}", "verde_model"]
-    ok, log = C.lake_build(targets)
+    pre = None
+    if translated:
+        import py2lean
+
+        def pre():
+            st, detail = py2lean.main()
+            res["translator"] = st + (": " + detail if detail else "")
+    ok, log = C.lake_build(targets, pre=pre)
     res["build_ok"] = ok
     res["checker_cmd"] = f"cd lean && lake build {' '.join(targets)} && lake env lean <generated #print axioms file for Props/{prop}.lean>"
     names = C.theorem_names(prop)
@@ -192,7 +199,9 @@ def replay(P, prop, path):
 
 def check(P, prop, tier, seed, t0):
     known = load_known(prop)
-    lean = lean_stage(prop, tier)
+    lean = lean_stage(prop, tier, translated=bool(getattr(P, "TRANSLATED", False)))
+    if lean["translator"].startswith("untranslatable"):
+        print(f"NOTE tie-degraded translator: {lean['translator']} (the snapshot definitions are used; correspondence remains the tie)")
     rng = random.Random(seed * 1000003 + (17 if tier == "thorough" else 0))
     cases = list(P.corpus()) + list(P.generate(rng, tier))
     for i, c in enumerate(cases):
@@ -268,7 +277,7 @@ def check(P, prop, tier, seed, t0):
             "oracle_violations": len(viol), "known_findings_hit": sorted(known_hits),
             "input_distribution": kinds,
             "source_hashes": C.source_hashes(P.FILES),
-            "tie": {"correspondence": True, "translator": bool(getattr(P, "TRANSLATED", False))},
+            "tie": {"correspondence": True, "translator": lean.get("translator", "not used")},
         },
         "assumptions": list(getattr(P, "ASSUMPTIONS", [])),
         "wall_s": round(time.time() - t0, 2),
